@@ -88,12 +88,14 @@ func matchesListItem(source []byte, strict bool) ([6]int, listItemType) {
 	return m, notList
 }
 
-func calcListOffset(source []byte, match [6]int) int {
+// lineOffset is the column at which source starts: tabs after the marker expand
+// to tab stops counted from the beginning of the physical line.
+func calcListOffset(source []byte, match [6]int, lineOffset int) int {
 	var offset int
 	if match[4] < 0 || util.IsBlank(source[match[4]:]) { // list item starts with a blank line
 		offset = 1
 	} else {
-		offset, _ = util.IndentWidth(source[match[4]:], match[4])
+		offset, _ = util.IndentWidth(source[match[4]:], lineOffset+match[4])
 		if offset > 4 { // offseted codeblock
 			offset = 1
 		}
